@@ -109,6 +109,12 @@ def rule_who(ctx: Ctx):
             rep.check(ok, "C11.who", s.loc(), f"{eng.name}.start(): base start (enqueue), then immediate activation", s.key, "; ".join(calls))
 
 
+def rule_constructor(ctx: Ctx):
+    from . import c05
+
+    c05.rule_start(ctx, rule="C11.who")
+
+
 def rule_sentinel(ctx: Ctx):
     c03.rule_first(ctx, rule="C11.sentinel")
 
@@ -147,4 +153,4 @@ def rule_target(ctx: Ctx):
         rep.check("self.sm._get_initial_state()" in v, "C11.target", it.loc(), "initial activation enters the state chosen by _get_initial_state", it.key, f"return {v}")
 
 
-RULES = [rule_guard, rule_who, rule_sentinel, rule_target]
+RULES = [rule_guard, rule_who, rule_constructor, rule_sentinel, rule_target]
